@@ -32,6 +32,7 @@ instance is moved for a renewal only when the renewal really failed; C07.6
 server. Fourth round: C07.4 the verbatim restore neutralises the lease
 completely (shared with C01.6).
 Fifth round: C07.1 a victim scan by position starts at position 0 of the reversed queue; C07.5 the merge of the sub-queues compares whole entries (shared with C06.5).
+Sixth round: C07.3 what Server.remove gives back is exactly what Server.put took (shared with C01.2).
 Does NOT decide the relation between queue order and the before/after
 placements of a whole cycle (a property of the run).
 """
